@@ -309,6 +309,9 @@ func c14() {
 		t := ts[i%len(ts)]
 		mp := vlib.DefaultMixed()
 		mp.MaxGroups, mp.BigNamesChance, mp.LongListChance = 4, 10, 10
+		if i%25 == 7 { // large policies through the configuration path too
+			mp.MaxGroups, mp.BigNamesChance, mp.LongListChance = 8, 2, 2
+		}
 		var p *seccomp.Policy
 		if i%7 == 0 {
 			p = vlib.GenNamesOnly(r, t, 0, vlib.NamedActions, vlib.NamedActions)
